@@ -31,6 +31,14 @@ static void operators_case(CaseCtx& c, int T)
         nrad  = 81 - ncirc;
         nt    = 128;
     }
+    // medium: the coarse-matrix zeroing / assembly of the direct solvers switches to its parallel path above 10 000
+    // non-zeros (about 1 150 nodes)
+    bool medium = !big && rng.coin(0.12);
+    if (medium) {
+        ncirc = rng.range(6, 14);
+        nrad  = rng.range(25, 29) - ncirc;
+        nt    = rng.pick({48, 56, 64});
+    }
     int nr = ncirc + nrad;
     GridSpec gs;
     std::string k1, k2;
@@ -44,7 +52,7 @@ static void operators_case(CaseCtx& c, int T)
     bool dirbc = rng.coin();
     gs.describe(c.obs.params);
     ps.describe(c.obs.params);
-    c.obs.params.b("DirBC_Interior", dirbc).str("kind", "operators").i("circles", ncirc).i("T", T).b("big", big);
+    c.obs.params.b("DirBC_Interior", dirbc).str("kind", "operators").i("circles", ncirc).i("T", T).b("big", big).b("medium", medium);
     c.announce("operators/T" + std::to_string(T));
     ProblemObjs po(ps);
     PolarGrid grid = gs.make();
@@ -64,7 +72,7 @@ static void operators_case(CaseCtx& c, int T)
             op.computeResidual(r, f, u);
             ran.push_back("residual_take");
         }
-        if (nt % 4 == 0 && !big) {
+        if (nt % 4 == 0 && (!big || cc == 3)) { // big grids (parallel-if thresholds at 10 000 nodes): once, with full caches
             {
                 SmootherGive op(grid, lc, *po.geo, *po.prof, dirbc, T);
                 Vector<double> x = u;
@@ -149,7 +157,7 @@ static void operators_case(CaseCtx& c, int T)
         rs += s + ",";
     c.obs.params.str("operators_run", rs);
     JObj sig;
-    sig.str("kind", "operators").i("circ_mod2", ncirc % 2).i("circ_mod3", ncirc % 3).i("circ_mod4", ncirc % 4).i("nt_mod3", nt % 3).i("nt_mod4", nt % 4).i("T", T).b("big", big);
+    sig.str("kind", "operators").i("circ_mod2", ncirc % 2).i("circ_mod3", ncirc % 3).i("circ_mod4", ncirc % 4).i("nt_mod3", nt % 3).i("nt_mod4", nt % 4).i("T", T).str("size", big ? "big" : (medium ? "medium" : "small"));
     c.obs.top.obj("sig", sig);
 }
 
